@@ -78,9 +78,20 @@ pub open spec fn bin_once(m: Mode, p: nat, N: int, D: int, mid: Mid) -> bool {
 pub open spec fn fp_inexact_normal<const BB: Word>(b: int, rr: Rounded<Repr<BB>>) -> bool {
     rr matches Approximation::Inexact(r, _) ==> fp_normal(b, r.significand.v())
 }
+/// the far-range stand-in of convert_to_binary_once: a value beyond 2^4096 (below 2^-4096) in magnitude is not converted
+/// digit by digit; +-1 * 2^4096 (+-1 * 2^-4096) with the sign of the value and the flag Inexact(NoOp) is handed on instead
+/// (far outside the range of f32 and f64: the second stage turns it into +-inf resp. +-0)
+pub open spec fn fp_far(N: int, D: int, mid: Mid) -> bool {
+    &&& mid.adj == Some(Rounding::NoOp) && N != 0 && mid.s == (if N < 0 { -1int } else { 1int })
+    &&& ((mid.e == 4096 && iabs(N) > ipow(2, 4096) * D) || (mid.e == -4096 && iabs(N) * ipow(2, 4096) < D))
+}
+/// first stage of to_f32 / to_f64: the exact value N / D rounded ONCE to p bits under mode m, or the far-range stand-in
+pub open spec fn fp_first(m: Mode, p: nat, N: int, D: int, mid: Mid) -> bool {
+    bin_once(m, p, N, D, mid) || fp_far(N, D, mid)
+}
 /// what the second stage (`into_f32_internal` / `into_f64_internal`) needs of the first: a finite value with at most p bits
 pub open spec fn fp_mid_ok(m: Mode, p: nat, N: int, D: int, mid: Mid) -> bool {
-    bin_once(m, p, N, D, mid) && !(mid.s == 0 && mid.e != 0) && blen(mid.s) <= p
+    fp_first(m, p, N, D, mid) && !(mid.s == 0 && mid.e != 0) && blen(mid.s) <= p
 }
 
 // ------------------------------------------------------------------------------------------------------------------
@@ -100,10 +111,10 @@ pub open spec fn fp_into_pre<const BB: Word>(v: Repr<BB>, p: nat) -> bool { BB =
 
 /// the composition `first.and_then(|v| v.into_f32_internal())`: mid = the first stage, ret = the final result
 pub open spec fn fp_two_stage32(m: Mode, N: int, D: int, mid: Mid, ret: Rounded<f32>) -> bool {
-    bin_once(m, 24, N, D, mid) && exists|o: Rounded<f32>| #[trigger] fp_enc32(mid.s, mid.e, o) && ret == fp_then(mid.adj, o)
+    fp_first(m, 24, N, D, mid) && exists|o: Rounded<f32>| #[trigger] fp_enc32(mid.s, mid.e, o) && ret == fp_then(mid.adj, o)
 }
 pub open spec fn fp_two_stage64(m: Mode, N: int, D: int, mid: Mid, ret: Rounded<f64>) -> bool {
-    bin_once(m, 53, N, D, mid) && exists|o: Rounded<f64>| #[trigger] fp_enc64(mid.s, mid.e, o) && ret == fp_then(mid.adj, o)
+    fp_first(m, 53, N, D, mid) && exists|o: Rounded<f64>| #[trigger] fp_enc64(mid.s, mid.e, o) && ret == fp_then(mid.adj, o)
 }
 
 // ------------------------------------------------------------------------------------------------------------------
@@ -113,7 +124,8 @@ pub open spec fn fp_two_stage64(m: Mode, N: int, D: int, mid: Mid, ret: Rounded<
 //   * an infinity gives Inexact(+-inf, NoOp)   ("the conversion is inexact even if the number is infinite");
 //   * a finite x = sig * B^e is rounded ONCE to 24 / 53 bits under m with a truthful flag (bin_once), and that value
 //     is encoded (fp_enc32 / fp_enc64: exact in the normal range, +-inf beyond the largest finite float); the flags are
-//     combined as `Approximation::and_then` does.
+//     combined as `Approximation::and_then` does.  For |x| > 2^4096 resp. |x| < 2^-4096 the first stage may be the
+//     stand-in +-2^4096 resp. +-2^-4096 with flag NoOp (fp_far) -- far beyond what either format holds.
 // The second stage rounds AGAIN (to nearest even) when the result is subnormal: this is the recorded observation D2
 // (proposed_fixes/D2/NOTES.txt, Repr::<2>::new(2^65 + 1, -1140).to_f64() = 0.0); the contract states the two stages
 // as they are and does not claim a single rounding there.
@@ -135,80 +147,57 @@ pub open spec fn fp_to_f64_post<const B: Word>(m: Mode, repr: Repr<B>, ret: Roun
 }
 
 // ------------------------------------------------------------------------------------------------------------------
-// `Context::convert_base` towards base 2, as used by `convert_to_binary_once` (mode Zero, precision q = p + 2).
+// `Context::convert_to_binary_once` and the four to_f32 / to_f64 functions
 
-/// "w = ws * 2^we is the exact value x = N / D (N != 0) TRUNCATED at the last place of a significand of max(q, digits of
-/// ws) binary digits, and something was cut off": with gq = the number of zero digits that pad ws to q digits and
-/// ex = we - gq the exponent of that last place,   |ws| * 2^gq  <  |x| / 2^ex  <  |ws| * 2^gq + 1,   same sign.
-pub open spec fn fp_trunc_at(q: int, N: int, D: int, ws: int, we: int) -> bool {
-    let L = ndigits(2, ws) as int;
-    let gq = if q > L { q - L } else { 0 };
-    let ex = we - gq;
-    let A = iabs(ws) * ipow(2, gq as nat);
-    let Xa = iabs(N) * ipow(2, (if ex < 0 { -ex } else { 0 }) as nat);
-    let Da = D * ipow(2, (if ex > 0 { ex } else { 0 }) as nat);
-    ws != 0 && (ws < 0) == (N < 0) && A * Da < Xa && Xa < (A + 1) * Da
-}
-/// where the ASSUMED contract of `convert_base::<B, 2>` is believed to hold: the integer-only paths
-///   * B a power of two (re-basing is exact, one `repr_round`: PROVED in unit float_convert_base), or
-///   * |exponent| <= THRESHOLD_SMALL_EXP = 38 (64-bit words): B^|exponent| is evaluated exactly and the value goes
-///     through `repr_round` (exponent >= 0) or `repr_div` (exponent < 0), both under contract (float_repr_round, float_div).
-/// KNOWN FINDING (reported by unit float_to_prim_once, reproduced natively): beyond that threshold convert_base works with
-/// ln / exp approximations at doubled precision; its result is NOT the truncation of the exact value and its flag is not
-/// truthful, e.g. DBig 5^40 * 10^-40 (= 2^-40) .to_f64() = Inexact(2^-40, NoOp) instead of Exact, and the tie
-/// DBig (2^53 + 1) * 5^39 * 10^-39 .to_f64() = 16384.000000000004 instead of 16384.0.
-pub open spec fn fp_cb_region(b: int, e: int) -> bool {
-    (exists|k: nat| k >= 1 && #[trigger] ipow(2, k) == b) || (-38 <= e && e <= 38)
-}
-/// precondition shared by convert_base (stub), convert_to_binary_once and the four to_f32 / to_f64 functions
+/// precondition shared by convert_to_binary_once and the four to_f32 / to_f64 functions
 pub open spec fn fp_src_ok<const B: Word>(repr: Repr<B>) -> bool {
     let (sig, e) = (repr.significand.v(), repr.exponent as int);
     &&& B >= 2
     // documented normal form of the operand (Repr invariant)
     &&& fp_normal(B as int, sig)
-    // resource limit: exponent overflow is a documented panic (C16), not modelled: digit counts and exponents below 2^54
-    &&& ndigits(B as int, sig) < 0x40_0000_0000_0000 && -0x40_0000_0000_0000 < e && e < 0x40_0000_0000_0000
+    // resource limit: exponent overflow is a documented panic (C16), not modelled: a significand of at most 2^54 bits and
+    // an exponent below 2^48 keep every bit count, shift amount and exponent of the conversion inside usize / isize
+    &&& blen(sig) <= 0x40_0000_0000_0000 && -0x1_0000_0000_0000 < e && e < 0x1_0000_0000_0000
 }
-pub open spec fn fp_cb_pre<const B: Word, const NewB: Word>(precision: usize, repr: Repr<B>) -> bool {
-    &&& NewB == 2 && fp_src_ok(repr) && fp_finite(repr)
-    &&& 0 < precision && precision < 0x40_0000_0000_0000
-    &&& fp_cb_region(B as int, repr.exponent as int)
-}
-/// ASSUMED contract of `Context::<R>::convert_base::<B, 2>` at precision q on a finite operand (property C08 "changing
-/// base is exact whenever the value is representable in the target precision and otherwise errs by less than one unit in
-/// the last place on the side required by the rounding mode, with a truthful Exact/Inexact flag and never more than one
-/// digit beyond the target precision"), spelled out for what the callers use:
-///   * the result is finite, has at most q + 1 binary digits, exponent inside the machine range (resource limit);
-///   * Exact(w): w is the exact value, in normal form;
-///   * Inexact(w, adj) under mode Zero: adj == NoOp and w is x truncated at its last place (fp_trunc_at).
-/// Nothing is assumed about the value of an Inexact result under the other five modes.
-pub open spec fn fp_cb_post<const B: Word, const NewB: Word>(m: Mode, q: usize, repr: Repr<B>, ret: Rounded<Repr<NewB>>) -> bool {
-    let (sig, e) = (repr.significand.v(), repr.exponent as int);
-    let (N, D) = (fx_num(B as int, sig, e), fx_den(B as int, e));
-    let w = rd_val0(ret);
-    let (ws, we) = (w.significand.v(), w.exponent as int);
-    &&& !(ws == 0 && we != 0)
-    &&& ndigits(2, ws) <= q + 1
-    &&& -0x2000_0000_0000_0000 < we && we < 0x2000_0000_0000_0000
-    &&& match ret {
-            Approximation::Exact(_) => fp_normal(2, ws) && fx_num(2, ws, we) * D == N * fx_den(2, we),
-            Approximation::Inexact(_, adj) => m == Mode::Zero ==> (adj == Rounding::NoOp && fp_trunc_at(q as int, N, D, ws, we)),
-        }
-}
-/// contract of `Context::convert_to_binary_once`: x = repr rounded ONCE to `precision` bits under the mode of the context,
-/// truthful flag; the result is in normal form (so it has at most `precision` bits: lemma_fp_once_digits)
 pub open spec fn fp_once_pre<const B: Word>(precision: usize, repr: Repr<B>) -> bool {
     &&& fp_src_ok(repr) && fp_finite(repr)
-    &&& 0 < precision && precision < 0x20_0000_0000_0000
-    &&& fp_cb_region(B as int, repr.exponent as int)
+    &&& 0 < precision && precision < 0x1_0000_0000_0000
 }
+/// contract of `Context::convert_to_binary_once`: x = repr rounded ONCE to `precision` bits under the mode of the context,
+/// truthful flag (or the far-range stand-in); the result is in normal form, finite, and has at most `precision` bits
 pub open spec fn fp_once_post<const B: Word>(m: Mode, precision: usize, repr: Repr<B>, ret: Rounded<Repr<2>>) -> bool {
     let (sig, e) = (repr.significand.v(), repr.exponent as int);
-    bin_once(m, precision as nat, fx_num(B as int, sig, e), fx_den(B as int, e), mid_of(ret))
+    fp_mid_ok(m, precision as nat, fx_num(B as int, sig, e), fx_den(B as int, e), mid_of(ret))
         && fp_normal(2, rd_val0(ret).significand.v())
 }
-/// precondition of the four to_f32 / to_f64 functions: an infinity, or (B == 2: any finite float; B != 2: the region
-/// where the assumed contract of convert_base holds -- KNOWN FINDING, see fp_cb_region)
-pub open spec fn fp_to_f_pre<const B: Word>(repr: Repr<B>) -> bool {
-    fp_src_ok(repr) && (fp_finite(repr) && B != 2 ==> fp_cb_region(B as int, repr.exponent as int))
-}
+/// precondition of the four to_f32 / to_f64 functions (any float, finite or not, of any base)
+pub open spec fn fp_to_f_pre<const B: Word>(repr: Repr<B>) -> bool { fp_src_ok(repr) }
+
+// ------------------------------------------------------------------------------------------------------------------
+// ASSUMED (f32 arithmetic is not modelled): the enclosure `EstimatedLog2::log2_bounds` is supposed to give and the meaning
+// of the two float tests of convert_to_binary_once (lowering rule D10 turns them into __f32_guard0 / __f32_guard1, declared in
+// unit float_to_prim_once).  Only the far-range shortcut depends on them; the correctly rounded path does not.
+/// "2^f <= num / den" resp. "num / den <= 2^f" over the reals (den > 0)
+pub uninterp spec fn fp_est_lo(f: f32, num: int, den: int) -> bool;
+pub uninterp spec fn fp_est_hi(f: f32, num: int, den: int) -> bool;
+/// the real number denoted by the f32 is > k resp. < k (false for NaN)
+pub uninterp spec fn fp_f32_gt(f: f32, k: int) -> bool;
+pub uninterp spec fn fp_f32_lt(f: f32, k: int) -> bool;
+/// k < f and 2^f <= num/den  ==>  2^k < num/den        (k >= 0; monotonicity of 2^x over the reals)
+#[verifier::external_body]
+pub proof fn ax_fp_est_gt(f: f32, k: nat, num: int, den: int)
+    requires fp_est_lo(f, num, den), fp_f32_gt(f, k as int), den > 0
+    ensures num > ipow(2, k) * den
+{}
+/// f < -k and num/den <= 2^f  ==>  num/den < 2^-k
+#[verifier::external_body]
+pub proof fn ax_fp_est_lt(f: f32, k: nat, num: int, den: int)
+    requires fp_est_hi(f, num, den), fp_f32_lt(f, -(k as int)), den > 0
+    ensures num * ipow(2, k) < den
+{}
+/// f > k and j <= k  ==>  f > j
+#[verifier::external_body]
+pub proof fn ax_fp_gt_mono(f: f32, k: int, j: int)
+    requires fp_f32_gt(f, k), j <= k
+    ensures fp_f32_gt(f, j)
+{}
